@@ -24,3 +24,7 @@ META = {
 
 def run(ctx):
     c05.run(ctx, "C06", focus="C06")
+
+
+def replay(ctx, rec):
+    c05.replay(ctx, rec)
